@@ -45,8 +45,96 @@ let record_of_sx (s : sx) : consume_record =
 let show_log (l : sx) : string =
   let s = string_of_sx l in if String.length s > 600 then String.sub s 0 600 ^ "..." else s
 
+(* ---------- large plans: the fast validator (FastPlan.v, C02_fast_necessary) ---------- *)
+
+let faction_of_sx (s : sx) : faction =
+  let k = match tag s with
+    | "C" -> KCommit | "F" -> KFork | "M" -> KMerge | "E" -> KEmerge
+    | "D" -> KDelete | "H" -> KHibernate | "B" -> KBoot
+    | t -> failwith ("unknown action " ^ t) in
+  match args s with
+  | c :: its ->
+      let c = int_of_sx c in
+      { fkind = k; fcommit = (if c >= 0 then Some (n_of_int c) else None);
+        fitems = List.rev (List.rev_map (fun x -> z_of_int (int_of_sx x)) its) }
+  | [] -> failwith "action without commit field"
+
+let fplan_of (p : sx) : faction list = List.rev (List.rev_map faction_of_sx (args p))
+
+(* parent table -> the [par] argument of fast_c02 *)
+let par_of_array (ps : int list array) : n -> n list =
+  let tab = Array.map (fun l -> List.map n_of_int l) ps in
+  fun c -> let i = int_of_n c in if i >= 0 && i < Array.length tab then tab.(i) else []
+
+(* diagnosis only (the verdict is fast_c02): the first action the per-action test rejects *)
+let first_reject par (p : faction list) : string =
+  let rec go k m = function
+    | [] -> "no single action is rejected"
+    | a :: r ->
+        if fc02_chk par m a then go (k + 1) (fstep m a) r
+        else begin
+          let show b = match fget m b with
+            | None -> "does not exist" | Some (FLive, Some c) -> Printf.sprintf "is live, analysed %d last" (int_of_n c)
+            | Some (FLive, None) -> "is live and fresh" | Some (FHib, _) -> "is hibernated" | Some (FDisp, _) -> "has been disposed" in
+          let its = String.concat " " (List.map (fun b -> string_of_int (int_of_z b)) a.fitems) in
+          match a.fkind, a.fcommit, a.fitems with
+          | KCommit, Some c, b :: _ ->
+              Printf.sprintf "action %d: commit %d is replayed on branch %d which %s (parents of the commit: %s)" k (int_of_n c) (int_of_z b)
+                (show b) (String.concat " " (List.map (fun q -> string_of_int (int_of_n q)) (par c)))
+          | KMerge, _, _ ->
+              Printf.sprintf "action %d: merge [%s]%s: %s" k (if String.length its > 200 then String.sub its 0 200 ^ "..." else its)
+                (if fnodup a.fitems then "" else " lists a branch twice")
+                (String.concat "; " (List.filteri (fun i _ -> i < 12) (List.map (fun b -> Printf.sprintf "%d %s" (int_of_z b) (show b)) a.fitems)))
+          | _ -> Printf.sprintf "action %d" k
+        end in
+  go 0 finit p
+
+(* a large run: the call log of the light recording item read as a plan over instance ids (root = emerge, Fork = fork
+   onto the clones, Consume = commit, Merge = merge of the receiver and its arguments), judged by fast_c02 against the
+   commit graph: every Consume on a live instance whose last commit is a parent of the commit (or a fresh instance for a
+   commit without parents), merges of distinct instances that consumed the same commit last; and every commit consumed *)
+let faction_of_event (e : sx) : faction =
+  let z x = z_of_int (int_of_sx x) in
+  match tag e, args e with
+  | "root", [i] -> { fkind = KEmerge; fcommit = None; fitems = [z i] }
+  | "fork", [s; ts] -> { fkind = KFork; fcommit = None; fitems = z s :: List.map z (list_of_sx ts) }
+  | "con", [i; c] ->
+      let c = int_of_sx c in
+      if c < 0 then failwith "Consume of a commit outside the analysed set";
+      { fkind = KCommit; fcommit = Some (n_of_int c); fitems = [z i] }
+  | "merge", [i; os] -> { fkind = KMerge; fcommit = None; fitems = z i :: List.map z (list_of_sx os) }
+  | _ -> failwith ("unknown event " ^ string_of_sx e)
+
+let scale_run id c =
+  let ps = Array.of_list (List.map ints_of_sx (args (field "graph" c))) in
+  let par = par_of_array ps in
+  let obs = field "obs" c in
+  let status = atom (List.hd (args (field "run" obs))) in
+  count "runs"; count "scale_runs";
+  if status <> "ok" then propfail id ("Pipeline.Run did not complete on a large commit graph: " ^ status)
+  else begin
+    let plan = List.rev (List.rev_map faction_of_event (args (field "log" obs))) in
+    count "logs_judged"; add "scale_calls_judged" (List.length plan);
+    let ninst = List.fold_left (fun m a -> List.fold_left (fun m b -> max m (int_of_z b)) m a.fitems) 0 plan in
+    if ninst >= 65536 then count "scale_runs_with_65536_instances";
+    let seen = Array.make (Array.length ps) false in
+    List.iter (fun a -> match a.fkind, a.fcommit with
+      | KCommit, Some c -> let i = int_of_n c in if i < Array.length seen then seen.(i) <- true
+      | _ -> ()) plan;
+    add "consume_records" (List.length (List.filter (fun a -> a.fkind = KCommit) plan));
+    let missing = ref [] in
+    Array.iteri (fun i b -> if not b then missing := i :: !missing) seen;
+    if not (fast_c02 par plan) then
+      propfail id ("the call log of the real Pipeline.Run on a large history is rejected by fast_c02 (instances as branches): " ^ first_reject par plan)
+    else if !missing <> [] then
+      propfail id (Printf.sprintf "Pipeline.Run on a large connected history never consumed %d of its commits, e.g. commit %d"
+                     (List.length !missing) (List.hd (List.rev !missing)))
+    else count "logs_accepted"
+  end
+
 let run_mode () =
   iter_cases (fun id c ->
+    if field_opt "shape" c <> None then scale_run id c else
     let g = graph_of_case c in
     let obs = field "obs" c in
     let status = atom (List.hd (args (field "run" obs))) in
@@ -67,8 +155,41 @@ let run_mode () =
         else propfail id (Printf.sprintf "the Consume log of the real Pipeline.Run is rejected by exec_ok: %s=%s" name (show_log l)))
         ["log0"; "log1"])
 
+let scale_case id c =
+  let ps = Array.of_list (List.map ints_of_sx (args (field "graph" c))) in
+  let par = par_of_array ps in
+  let obs = args (field "obs" c) in
+  let plans = List.find (fun x -> tag x = "plans") obs in
+  count "scale_graphs";
+  match args plans with
+  | [p] when tag p = "panic" ->
+      propfail id ("the planner panicked (" ^ string_of_sx p ^ ") on a large commit graph")
+  | pls ->
+      List.iter (fun p ->
+        let plan = fplan_of p in
+        count "plans_produced"; count "plans_validated"; count "scale_plans_validated";
+        add "scale_actions_validated" (List.length plan);
+        let maxb = List.fold_left (fun m a -> List.fold_left (fun m b -> max m (int_of_z b)) m a.fitems) 0 plan in
+        if maxb >= 65536 then count "scale_plans_with_branch_index_ge_65536";
+        (* every commit of the (connected) history must be analysed at least once *)
+        let seen = Array.make (Array.length ps) false in
+        List.iter (fun a -> match a.fkind, a.fcommit with
+          | KCommit, Some c -> let i = int_of_n c in if i < Array.length seen then seen.(i) <- true
+          | _ -> ()) plan;
+        let missing = ref [] in
+        Array.iteri (fun i b -> if not b then missing := i :: !missing) seen;
+        if fast_c02 par plan then begin
+          if !missing <> [] then
+            propfail id (Printf.sprintf "the plan of a large connected history does not analyse %d of its commits, e.g. commit %d"
+                           (List.length !missing) (List.hd (List.rev !missing)))
+          else count "plans_accepted"
+        end else
+          propfail id ("the plan of the real planner for a large history is rejected by fast_c02: " ^ first_reject par plan))
+        pls
+
 let plan_mode () =
   iter_cases (fun id c ->
+    if field_opt "shape" c <> None then scale_case id c else
     let g = graph_of_case c in
     let obs = args (field "obs" c) in
     let mult = match List.filter (fun x -> tag x = "mult") obs with
@@ -83,7 +204,14 @@ let plan_mode () =
            add "plans_produced" mult;
            count "plans_validated";
            let plan = List.map action_of_sx (args p) in
-           if plan_ok g plan then count "plans_accepted"
+           (* the fast validator of the scale family runs on every small plan too: whatever plan_ok accepts it must
+              accept (C02_fast_accepts_what_plan_ok_accepts) *)
+           let par = par_of_array (Array.of_list (List.map (List.map int_of_nat) g)) in
+           let fast = fast_c02 par (fplan_of p) in
+           if plan_ok g plan then begin
+             count "plans_accepted";
+             if not fast then mismatch id ("fast_c02 rejects a plan that plan_ok accepts: " ^ string_of_sx p)
+           end
            else propfail id (Printf.sprintf "plan #%d of the real planner is rejected by plan_ok: %s" (i + 1) (string_of_sx p)))
            ps))
 
